@@ -51,7 +51,7 @@ def _call(f, pat):
 
 
 def run(ctx, mod):
-    p = Program(facts())
+    p = Program(facts(), inline=False)
     fails = []
 
     def expect(cond, what):
